@@ -470,6 +470,6 @@ pub fn run(ctx: &Ctx) {
         }
     }
 
-    ctx.run_prop("rt", ctx.cases(50_000, 1_500_000), gen::rt_case(), |c: &RtCase| check_rt(ctx, &env, c));
-    ctx.run_prop("robust", ctx.cases(80_000, 2_500_000), gen::rob_case(), |c: &RobCase| check_rob(&env, c));
+    ctx.run_prop("rt", ctx.cases(50_000, 1_000_000), gen::rt_case(), |c: &RtCase| check_rt(ctx, &env, c));
+    ctx.run_prop("robust", ctx.cases(80_000, 1_800_000), gen::rob_case(), |c: &RobCase| check_rob(&env, c));
 }
